@@ -423,6 +423,15 @@ Definition loc_names (p : profile) (id : Z) : list string :=
   | None => []
   end.
 Definition frames_of (p : profile) (s : sample) : list string := flat_map (loc_names p) (s_loc s).
+(* the source file every line of a location is attributed to (Function.Filename): what the
+   file-showing granularities (-files, -lines, -filefunctions, -addresses) print *)
+Definition fn_file (p : profile) (id : Z) : string :=
+  match find_function p id with Some f => f_file f | None => ""%string end.
+Definition loc_files (p : profile) (id : Z) : list string :=
+  match find_location p id with
+  | Some l => map (fun ln => fn_file p (ln_fn ln)) (l_lines l)
+  | None => []
+  end.
 
 Definition has_name (e : string) (l : list string) : bool := existsb (String.eqb e) l.
 Definition leaf_is (e : string) (l : list string) : bool :=
